@@ -203,6 +203,7 @@ package message
 //@   self r
 //@   monitor handlersLock guards handlers
 //@   monitor closedLock guards closed
+//@   ownschan running, closingInProgressCh, closedCh
 //@   invariant r.handlers != nil [mon:handlersLock:handlers-map-exists]
 //@   invariant forall k string :: has(r.handlers, k) ==> r.handlers[k] != nil && r.handlers[k].name == k && r.handlers[k].startedCh != nil && (!r.handlers[k].started ==> !closed(r.handlers[k].startedCh)) [mon:handlersLock:registered-handlers-are-well-formed]
 
@@ -422,6 +423,7 @@ package message
 //@   requires r != nil && h != nil
 
 //@ func (*Router).RunHandlers
+//@   ghost label RH
 //@   requires r != nil && r.handlersLock != nil && r.middlewaresLock != nil && r.handlersWg != nil && ctx != nil
 //@   requires forall i int :: 0 <= i && i < len(r.publisherDecorators) ==> r.publisherDecorators[i] != nil
 //@   requires forall i int :: 0 <= i && i < len(r.subscriberDecorators) ==> r.subscriberDecorators[i] != nil
@@ -438,3 +440,55 @@ package message
 //@   modifies field(handler.publisher), field(handler.subscriber), field(handler.messagesCh), field(handler.started), field(handler.stopFn), field(handler.stopped)
 
 //@ spec goodctx(c context.Context) bool := c != nil
+
+//@ func (*Router).Running
+//@   requires r != nil
+//@   nopanic
+//@   pure
+//@   ensures result == r.running
+
+//@ func (*Handler).Started
+//@   requires h != nil && h.handler != nil
+//@   nopanic
+//@   pure
+//@   ensures result == h.handler.startedCh
+
+//@ func (*Handler).Stopped
+//@   requires h != nil && h.handler != nil
+//@   nopanic
+//@   pure
+//@   ensures result == h.handler.stopped [the-channel-RunHandlers-created-before-closing-Started]
+
+//@ func (*Handler).Stop
+//@   requires h != nil && h.handler != nil
+//@   requires h.handler.started && h.handler.stopFn != nil [what-a-closed-Started-channel-publishes]
+//@   callee SF = h.handler.stopFn : total
+//@   nopanic
+//@   ensures calls(SF) == old(calls(SF)) + 1 [cancels-this-handlers-own-subscription-context-once]
+
+//@ func (*Router).IsClosed
+//@   requires r != nil
+//@   ghost atomic
+//@   nopanic
+//@   ensures result == r.closed [reads-the-flag-under-its-lock]
+
+//@ func (*Router).watchAllHandlersStopped$1
+//@   requires r != nil
+
+//@ func (*Router).watchAllHandlersStopped
+//@   requires r != nil && r.handlersLock != nil
+//@   nopanic
+//@   ensures spawned("(*Router).watchAllHandlersStopped$1") == old(spawned("(*Router).watchAllHandlersStopped$1")) + 1 [one-watcher-started]
+
+//@ func (*Router).Run
+//@   requires r != nil && ctx != nil && routerBuilt(r)
+//@   requires !r.isRunning ==> !closed(r.running) [running-is-closed-only-by-Run]
+//@   requires forall i int :: 0 <= i && i < len(r.plugins) ==> r.plugins[i] != nil
+//@   requires forall i int :: 0 <= i && i < len(r.publisherDecorators) ==> r.publisherDecorators[i] != nil
+//@   requires forall i int :: 0 <= i && i < len(r.subscriberDecorators) ==> r.subscriberDecorators[i] != nil
+//@   callee PL = plugin
+//@   ensures old(r.isRunning) ==> err != nil && ncalls(RH) == old(ncalls(RH)) && !r.closed == !old(r.closed) [a-second-Run-is-refused-and-starts-nothing]
+//@   ensures err == nil ==> closed(r.closedCh) && closed(r.running) [returns-nil-only-after-the-close-has-completed]
+//@   assert @close:r.running: ncalls(RH) == old(ncalls(RH)) + 1 && sret(RH, 0, ncalls(RH) - 1) == nil [running-is-closed-only-after-RunHandlers-subscribed-every-registered-handler]
+//@   inv loop 1: r.isRunning && !closed(r.running) && ncalls(RH) == old(ncalls(RH)) [plugins-run-before-anything-starts]
+//@   modifies r.isRunning, closed(r.running), field(handler.publisher), field(handler.subscriber), field(handler.messagesCh), field(handler.started), field(handler.stopFn), field(handler.stopped)
